@@ -130,7 +130,18 @@ func genScenario(t *rapid.T, family string) Scenario {
 // ---------------------------------------------------------------------------------------
 // Rules: each draws its parameters from the current state and executes one Action.
 
-func (m *machine) ruleReconcile(t *rapid.T) { m.apply(Action{Op: "reconcile"}) }
+func (m *machine) ruleReconcile(t *rapid.T) {
+	a := Action{Op: "reconcile"}
+	skip, exempt := m.knownClass()
+	if skip != "" {
+		a.Skipped = true
+		vlib.Excluded(m.chk, skip)
+	} else if exempt != "" {
+		a.Exempt = true
+		vlib.Excluded(m.chk, exempt)
+	}
+	m.apply(a)
+}
 
 func (m *machine) ruleSetStatus(t *rapid.T) {
 	n := m.currentN()
